@@ -4,6 +4,7 @@ import itertools
 from urllib.parse import urlsplit as py_urlsplit, urlunsplit as py_urlunsplit
 
 import lib
+import urlrt
 
 ID = "C12"
 LEAN_MODULE = "UralModel.Props.C12"
@@ -95,6 +96,14 @@ CORPUS = [
     # D34 (fixed by 915ddc4): bracketed IPv6 hosts
     "http://[2001:db8::1]:8080/x", "http://[::1]/", "http://u:p@[::1]:80/", "http://[2001:db8::1]/x",
     "http://[::ffff:1.2.3.4]:8/a", "http://[fe80::1%25eth0]:22/", "http://[FE80::A]/", "http://[::1]:/",
+    # KF-C12-1: bracketed literal whose zone id / IPvFuture text ends with a public suffix (suffix-aware mode
+    # splits it into domain labels); and the same shapes without a suffix (fine)
+    "http://[::1%a.co.uk]/x", "http://[v1.a.com]/", "http://[FE80::1%Eth0.com]:80/", "http://[fe80::1%eth0]/",
+    "http://[v1.x]/p", "http://u:p@[fe80::1%25eth0]:22/a?b#c", "http://[v1.fe80::a+en1]/",
+    # string-level class boundary: bracket in the userinfo, no host, tab / CR / LF inside, leading blanks
+    "http://u[@a.com/", "http://[u]@a.com/", "http://[::1]@a.com/", "http://:[::1]@a.com/p", "http:///x", "http://@/x",
+    "http://a.com/a\tb", "ht\ttp://a.com", "  http://a.com/x", "\x00http://a.com", "http://a\n.com/", "HTTP://A.com:80",
+    "aaaaaaaaaaaaaaaaaaaaaaaaaaaaaaaaaaaaaaaaaaaaaaaaaaaaaaaaaaaaaaaaa://a.com/x", "a1://b.c/d", "a+b://c.d/e",
     # D9: password without user
     "http://:p@a.com/", "http://u:@a.com", "http://@a.com", "http://:@a.com/x",
     # ':' and '@' in path / query / fragment
@@ -370,14 +379,116 @@ def parts_json(A, split):
     return {"scheme": A[0], "netloc": A[1], "path": A[2], "query": A[3], "fragment": A[4], "split": split}
 
 
+def full_url(url):
+    lib.ural()
+    from ural.ensure_protocol import ensure_protocol
+
+    return ensure_protocol(url)
+
+
+def class_reason(A, sa, split):
+    """None when A = urlsplit(ensure_protocol(u)) puts u inside the class of the string-level
+    theorems (Model/LruUrl.lean: inClass), else the first clause that fails.  Written on the real
+    parser's answer, independently of the Lean text."""
+    if A is None:
+        return "urlsplit-ValueError"
+    t = [A[0], A[1], A[2], A[3], A[4]]
+    if "|" in "".join(t):
+        return "bar"
+    n = t[1]
+    if not wf_netloc(n):
+        return "netloc-outside-grammar"
+    host, _port = spec_hostport(hostport_of(n))
+    if host == "":
+        return "no-host"
+    i = n.find("@")
+    auth = n[:i] if i >= 0 else ""
+    if "[" in auth or "]" in auth:
+        return "bracket-in-userinfo"
+    if sa:
+        if host.startswith("["):
+            if split is not None:
+                return "bracketed-literal-with-suffix(KF-C12-1)"
+        elif "%" in host:
+            return "percent-in-host"
+    return None
+
+
+def _string_level(url, sa):
+    """what the real code answers along the string-level pipeline (op lru_url)"""
+    lib.ural()
+    from ural.lru import lru_stems, url_to_lru, lru_to_url
+
+    err = {"error": "ValueError"}
+    pr = cparse(url)
+    if pr is None:
+        return {"parts": err, "stems": err, "lru": err, "in_class": False, "back": err, "reparse": err, "relru": err}
+    A, split = pr
+    stems = list(lru_stems(url, suffix_aware=sa))
+    lru = url_to_lru(url, suffix_aware=sa)
+    back = _guard(lambda: lru_to_url(lru))
+    out = {
+        "parts": [A[0], A[1], A[2], A[3], A[4]],
+        "stems": stems,
+        "lru": lru,
+        "in_class": class_reason(A, sa, split) is None,
+        "back": back,
+    }
+    if isinstance(back, str):
+        out["reparse"] = _guard(lambda: list(py_urlsplit(back)))
+        out["relru"] = _guard(lambda: url_to_lru(back, suffix_aware=sa))
+    else:
+        out["reparse"] = err
+        out["relru"] = err
+    return out
+
+
+def _back_of(url, sa):
+    lib.ural()
+    from ural.lru import url_to_lru, lru_to_url
+
+    try:
+        return lru_to_url(url_to_lru(url, suffix_aware=sa))
+    except Exception:  # noqa
+        return None
+
+
+def string_plan(case):
+    """(op, thunk) pairs of the string-level tie: the model's own parser on ensure_protocol(u)
+    and on every round-trip result (op parse_url of Driver/UrlRt.lean: urlsplit + the four
+    accessors, against CPython), and the composed pipeline lru_url.  Strings outside the stated
+    domain of the parser model (urlrt.outside_model, decided from the real parser) are withheld."""
+    url = case["url"]
+    full = full_url(url)
+    if urlrt.outside_model(full) is not None:
+        return []
+    out = [({"f": "parse_url", "url": full}, lambda: urlrt.parse_real(full))]
+    pr = cparse(url)
+    split = pr[1] if pr is not None else None
+    for sa in case["sa"]:
+        back = _back_of(url, sa) if pr is not None else None
+        skip_back = back is not None and urlrt.outside_model(back) is not None
+        split_back = None
+        if back is not None:
+            pb = cparse(back)
+            split_back = pb[1] if pb is not None else None
+        op = {"f": "lru_url", "url": url, "sa": sa, "split": split, "split_back": split_back}
+        if skip_back:
+            op["skip_back"] = True
+        out.append((op, (lambda sa=sa: _string_level(url, sa))))
+        if back is not None and not skip_back:
+            out.append(({"f": "parse_url", "url": back}, (lambda back=back: urlrt.parse_real(back))))
+    return out
+
+
 def ops(case):
     k = case["k"]
     if k == "url":
+        out = [o for o, _ in string_plan(case)]
         pr = cparse(case["url"])
         if pr is None:
-            return []
+            return out
         A, split = pr
-        out = []
         for sa in case["sa"]:
             o = parts_json(A, split)
             o.update({"f": "lru", "sa": sa})
@@ -444,11 +555,12 @@ def impl(case):
 
     k = case["k"]
     if k == "url":
+        out = [f() for _, f in string_plan(case)]
         pr = cparse(case["url"])
         if pr is None:
-            return []
+            return out
         A, split = pr
-        return [_impl_url(C, case["url"], sa, A, split) for sa in case["sa"]]
+        return out + [_impl_url(C, case["url"], sa, A, split) for sa in case["sa"]]
     if k == "stems":
         st = case["stems"]
         lru = _guard(lambda: serialize_lru(st))
@@ -472,6 +584,10 @@ def canon(op, out):
     if op["f"] == "lru" and not out.get("wf"):
         # the grammar host/port and the expected tuple are only defined inside the grammar
         for k in ("spec_host", "spec_port", "expected", "wf_sa"):
+            out.pop(k, None)
+    if op["f"] == "lru_url" and op.get("skip_back"):
+        # the round-trip result is outside the stated domain of the parser model
+        for k in ("reparse", "relru"):
             out.pop(k, None)
     if op["f"] == "lru_stems" and not op["stems"]:
         # lru_to_url([]) : isinstance check takes the list branch; nothing to compare but keep serialisation
@@ -515,7 +631,7 @@ def in_reading(A, sa):
         # a URL without host is outside the grammar (and CPython's urlunsplit drops an empty
         # netloc in front of a path starting with '//')
         return False
-    if sa and (has_empty_label(host) or "%" in host) and host != "":
+    if sa and (has_empty_label(host) or ("%" in host and not host.startswith("["))) and host != "":
         return False
     return True
 
@@ -589,6 +705,21 @@ def oracle_url(url, sa):
     return None
 
 
+def kf_bracketed_literal_suffix(case, failure):
+    """KF-C12-1: suffix_aware=True, the host of u is a bracketed IP literal and split_suffix finds a
+    public suffix at the end of its text (zone id `[::1%a.co.uk]`, IPvFuture `[v1.a.com]`): stems.py
+    then emits the literal as domain labels and lru_to_url gives a URL without brackets"""
+    if case.get("k") != "url" or not failure.startswith("suffix_aware=True"):
+        return False
+    pr = cparse(case["url"])
+    if pr is None:
+        return False
+    A, split = pr
+    if split is None or not wf_netloc(A[1]):
+        return False
+    return spec_hostport(hostport_of(A[1]))[0].startswith("[")
+
+
 def nontrivial(case):
     if case["k"] != "url" or "|" in case["url"]:
         return None
@@ -609,6 +740,17 @@ def classify(case):
     for sa in case["sa"]:
         labs.append("sa=%d" % sa)
     pr = cparse(url)
+    om = urlrt.outside_model(full_url(url))
+    if om is not None:
+        labs.append("string-tie-withheld(outside-parser-model:%s)" % om)
+    for sa in case["sa"]:
+        r = class_reason(pr[0] if pr else None, sa, pr[1] if pr else None)
+        if r is None and om is None:
+            labs.append("string-class:inside/sa=%d" % sa)
+        elif r is None:
+            labs.append("string-class:components-inside-but-parser-model-rejects/sa=%d" % sa)
+        else:
+            labs.append("string-class:outside(%s)/sa=%d" % (r, sa))
     if pr is None:
         labs.append("urlsplit-ValueError")
         return labs
